@@ -112,6 +112,7 @@ Proof.
   unfold step in H. apply bind_inv in H. destruct H as ([m1 res] & w1 & e1 & e2 & Hse & H & ->).
   apply ret_inv in H. destruct H as (_ & _ & ->). rewrite app_nil_r.
   unfold send_event in Hse. replace (String.eqb "Event_OnCsvPassed" Ev_Done) with false in Hse by reflexivity.
+  change "Event_OnCsvPassed"%string with Ev_Csv in Hse. rewrite Hnext in Hse.
   unfold persist_then_loop in Hse. apply bind_inv in Hse. destruct Hse as (ok & w2 & e3 & e4 & Hp & Hse & ->).
   apply persist_world in Hp. destruct Hp as (Hok & Hq & ->). rewrite Hst in Hok. subst ok. cbn [negb] in Hse.
   rewrite loop_fuel_S, event_loop_S in Hse. change "Event_OnCsvPassed"%string with Ev_Csv in Hse.
